@@ -4,7 +4,7 @@ import json, os, shutil, sys
 pid, i, checks, outcome = sys.argv[1], int(sys.argv[2]), sys.argv[3], sys.argv[4]
 rnd = os.environ.get("SEED_ROUND", "")          # "" = first round; "2" = second round (/tmp/seed2-Cxx-work, saved as Cxx-<i+3>)
 src = "/tmp/seed%s-%s-work/change%d" % (rnd, pid, i)
-dst = "/verif/seeded/%s-%d" % (pid, i + {"": 0, "2": 3, "3": 5}.get(rnd, 0))
+dst = "/verif/seeded/%s-%d" % (pid, i + {"": 0, "2": 3, "3": 5, "4": 7}.get(rnd, 0))
 os.makedirs(dst, exist_ok=True)
 for f in os.listdir(src):
     if f in ("patch.diff", "demo.cpp", "demo.sh", "notes.md", "build_demo.sh") or f.endswith((".cpp", ".h", ".hpp", ".inc", ".sh")):
